@@ -53,6 +53,9 @@ var (
 	// ErrUnknownFormat is returned when an attestation file cannot be decoded from any of the
 	// supported forms.
 	ErrUnknownFormat = errors.New("unknown attestation format")
+	// ErrNoObjectName is returned when no full-length measurement is known from which the
+	// endorsement's storage object name could be derived.
+	ErrNoObjectName = errors.New("no measurement to derive the endorsement object name from")
 	// ErrEventLogPathEmpty is returned when the event log path in Options is empty.
 	ErrEventLogPathEmpty = errors.New("event log path is empty")
 )
@@ -155,15 +158,27 @@ func (opts *Options) fromEventLog() ([]byte, error) {
 }
 
 func fromSevSnpAttestationProto(at *spb.Attestation) ([]byte, string, error) {
-	if out, err := extractsev.FromAttestation(at); err == nil {
-		return out, "", nil
+	// The object name is only ever derived from a full-length launch measurement.
+	var objectName string
+	if meas := at.GetReport().GetMeasurement(); len(meas) == abi.MeasurementSize {
+		objectName = extractsev.GCETcbObjectName(sev.GCEUefiFamilyID, meas)
 	}
-	meas := at.GetReport().GetMeasurement()
-	return nil, extractsev.GCETcbObjectName(sev.GCEUefiFamilyID, meas), nil
+	if out, err := extractsev.FromAttestation(at); err == nil {
+		return out, objectName, nil
+	}
+	if objectName == "" {
+		return nil, "", fmt.Errorf("attestation carries no endorsement and its measurement is %d bytes, want %d",
+			len(at.GetReport().GetMeasurement()), abi.MeasurementSize)
+	}
+	return nil, objectName, nil
 }
 
-func fromTdxAttestationProto(at *tpb.QuoteV4) string {
-	return extracttdx.GCETcbObjectName(at.GetTdQuoteBody().GetMrTd())
+func fromTdxAttestationProto(at *tpb.QuoteV4) (string, error) {
+	mrtd := at.GetTdQuoteBody().GetMrTd()
+	if len(mrtd) != abi.MeasurementSize {
+		return "", fmt.Errorf("quote's MRTD is %d bytes, want %d", len(mrtd), abi.MeasurementSize)
+	}
+	return extracttdx.GCETcbObjectName(mrtd), nil
 }
 
 // Attestation will try to deserialize a given attestation in any of the supported formats and
@@ -242,7 +257,8 @@ func (opts *Options) fromQuote(quote []byte) (endorsement []byte, objectName str
 	case *tpmpb.Attestation_SevSnpAttestation:
 		return fromSevSnpAttestationProto(at.SevSnpAttestation)
 	case *tpmpb.Attestation_TdxAttestation:
-		return nil, fromTdxAttestationProto(at.TdxAttestation), nil
+		objectName, err := fromTdxAttestationProto(at.TdxAttestation)
+		return nil, objectName, err
 	}
 	return nil, "", ErrUnknownFormat
 }
@@ -289,6 +305,9 @@ func Endorsement(opts *Options) (out []byte, err error) {
 	// Then try the internet.
 	if opts.Getter == nil {
 		internetErr = ErrGetterNil
+	} else if objectName == "" {
+		// Nothing is fetched without a URL derived from a full-length measurement.
+		internetErr = ErrNoObjectName
 	} else {
 		endorsement, internetErr = opts.Getter.Get(verify.GCETcbURL(objectName))
 		if internetErr == nil {
